@@ -409,6 +409,17 @@ class W(wire.World):
         else:
             while k.now < settle and len(self.decoded) < len(self.entered) and not self.violations and not self.disconnected:
                 k.sleep(0.05)
+        if getattr(self, "final_mark", None) is None and self.ends and len(self.sessions) > 1:
+            # the second connection came up only after the senders had finished: what has entered on it up to now (the
+            # keep-alive goes on sending) is given time to arrive, later entries are not judged
+            self.final_mark = len(self.entered)
+            tail = [n.key() for n in self.entered[self.entered_mark:self.final_mark]]
+            drain = k.now + int(10e6)
+            while k.now < drain and not self.violations and not self.disconnected:
+                have = set(n.key() for n in self.decoded)
+                if all(t in have for t in tail):
+                    break
+                k.sleep(0.05)
         k.finish()
 
     # ---------------------------------------------------------------- oracle
